@@ -26,6 +26,8 @@ from .core import SymBool, SymInt, Unsupported, W, ctx
 
 
 def _t(cond):
+    if z3.is_expr(cond):
+        return cond
     if isinstance(cond, SymBool):
         return cond.t
     if isinstance(cond, SymInt):
@@ -229,9 +231,13 @@ class LoopSpec:
         ctx().notes.append("loop-contract:%s" % self.name)
         prove("%s: invariant holds on entry" % self.name, self.invariant(L, self._k()))
 
-    def havoc(self, name, L):
+    def havoc(self, name, L, assigned=True):
+        """value of local `name` in the arbitrary loop state; `assigned`: the loop body assigns the name"""
         if name in self.havoc_names:
             return self.havoc_names[name](self, L)
+        if not assigned:
+            # only read (or mutated in place) by the loop: unchanged binding; enter() has checked that it is declared heap/const
+            return L[name] if name in L else Poison(name)
         if name in self.const and name in L:
             raise Unsupported("loop %s assigns %r, which its contract declares const" % (self.name, name))
         if name in self.heap and name in L:
@@ -262,3 +268,38 @@ class LoopSpec:
         prove("%s: invariant is preserved by an arbitrary iteration" % self.name, self.invariant(L, self._k()))
         if self.it is None:
             prove("%s: variant strictly decreases" % self.name, self.variant(L, None) < self._v0)
+
+
+class GhostChunks:
+    """a list of byte chunks that a loop appends to and the caller finally joins: ghost view `the chunks tile
+    mem[base, base + tot)`.  append() proves that the new chunk is the next window of the memory."""
+
+    def __init__(self, name, mem, base, tot=0):
+        self.name, self.mem, self.base, self.tot = name, mem, base, tot
+
+    def append(self, chunk):
+        from .ubuf import SymBuf
+        if isinstance(chunk, SymBuf):
+            prove("%s: appended chunk is the next window of the data" % self.name,
+                  core.And(chunk.mem is self.mem, core.Eq(chunk.base, self.base + self.tot)))
+            n = chunk.length
+        elif getattr(chunk, "mem", None) is self.mem:
+            # provenance known: one address comparison instead of one per byte
+            n = len(chunk.items)
+            if n:
+                prove("%s: appended chunk is the next window of the data" % self.name, core.Eq(chunk.addr, self.base + self.tot))
+        else:
+            items = list(chunk.items) if hasattr(chunk, "items") else list(chunk)
+            n = len(items)
+            conj = [SymInt.lift(b).t == self.mem.byte(self.base + self.tot + i).t for i, b in enumerate(items)]
+            prove("%s: appended chunk is the next window of the data" % self.name, z3.And(*conj) if conj else True)
+        self.tot = self.tot + n
+
+    def __pyvc_join__(self, sep):
+        from .ubuf import SymBuf
+        if len(sep):
+            raise Unsupported("join of ghost chunks with a separator")
+        return SymBuf(self.mem, self.base, self.tot)
+
+    def __getattr__(self, nm):
+        raise Unsupported("operation %r on ghost chunks" % nm)
